@@ -42,11 +42,11 @@ ASSUMPTIONS = [
 GROUPS = ["host_sw", "host_fs", "nic", "acl", "link", "absent"]
 
 
-def _env(kind: str, nmne: bool, flatten: bool = False):
+def _env(kind: str, nmne: bool, flatten: bool = False, variant: str = "exact"):
     from primaite.session.environment import PrimaiteGymEnv
 
     quiet()
-    cfg = mini_scenario(kind, flatten_obs=flatten, with_green=False, with_red=False)
+    cfg = mini_scenario(kind, flatten_obs=flatten, with_green=False, with_red=False, obs_variant=variant)
     if nmne:
         cfg["simulation"]["network"]["nmne_config"] = {"capture_nmne": True, "nmne_capture_keywords": ["DELETE"]}
     return PrimaiteGymEnv(env_config=copy.deepcopy(cfg))
@@ -64,6 +64,7 @@ def leaf_obs_in_space(
     k1: int, k2: int, k3: int,
     kind: str = "routed",
     nmne: bool = True,
+    variant: str = "exact",
 ):
     """The real observation tree of the generated scenario evaluated on a state dict with solver-chosen quantities."""
     from primaite.simulator.file_system.file_system_item_abc import FileSystemItemHealthStatus
@@ -74,7 +75,7 @@ def leaf_obs_in_space(
     from primaite.simulator.system.software import SoftwareHealthState
 
     with concrete():
-        env = _env(kind, nmne)
+        env = _env(kind, nmne, variant=variant)
         env.reset()
         om = env.agent.observation_manager
         space = om.space
@@ -183,11 +184,11 @@ def leaf_obs_in_space(
     check(not v2, lambda: f"second observation not in space (group {grp}): {v2[:3]}")
 
 
-def env_obs_in_space(a0: int, a1: int, M: int, k: int = 1, kind: str = "switched", nmne: bool = False, flatten: bool = False):
+def env_obs_in_space(a0: int, a1: int, M: int, k: int = 1, kind: str = "switched", nmne: bool = False, flatten: bool = False, variant: str = "exact"):
     """Observations returned by reset/step of the real environment are members of env.observation_space, nested and
     flattened, and the spaces are the same object structure in consecutive episodes."""
     with concrete():
-        env = _env(kind, nmne, flatten)
+        env = _env(kind, nmne, flatten, variant)
         n_actions = len(env.agent.action_manager.action_map)
         space0 = env.observation_space
         aspace0 = env.action_space
@@ -308,20 +309,26 @@ HARNESSES = {
     "leaf_obs_in_space": {
         "fn": leaf_obs_in_space,
         "quick": [{"fixed": {"g": gi, "kind": "routed", "nmne": True}, "timeout": 280} for gi in range(len(GROUPS))]
-        + [{"fixed": {"g": 2, "kind": "switched", "nmne": False}, "timeout": 200}],
-        "thorough": [{"fixed": {"g": gi, "kind": kd, "nmne": nm}, "timeout": 1200} for gi in range(len(GROUPS)) for kd in ("routed", "switched") for nm in (True, False) if not (gi == 3 and kd == "switched")],
+        + [{"fixed": {"g": 2, "kind": "switched", "nmne": False}, "timeout": 200}]
+        # observation configs that list more / fewer components than the num_* sizes (truncated / padded by the real code)
+        + [{"fixed": {"g": gi, "kind": "switched", "nmne": True, "variant": v}, "timeout": 280} for v in ("surplus", "padded") for gi in (0, 1, 5)],
+        "thorough": [{"fixed": {"g": gi, "kind": kd, "nmne": nm}, "timeout": 1200} for gi in range(len(GROUPS)) for kd in ("routed", "switched") for nm in (True, False) if not (gi == 3 and kd == "switched")]
+        + [{"fixed": {"g": gi, "kind": "routed", "nmne": True, "variant": v}, "timeout": 1200} for v in ("surplus", "padded") for gi in range(len(GROUPS))],
         "cover": ["grp_host_sw", "grp_host_fs", "grp_nic", "grp_acl", "grp_link", "grp_absent"],
         "bounds": "per group every member of the real enums, counts as unbounded non-negative integers, ACL rule fields "
-        "listed/unlisted/None at slot 0 or 3; thresholds of the generated scenario",
+        "listed/unlisted/None at slot 0 or 3; thresholds of the generated scenario; observation config listing exactly / more / fewer components than its num_* sizes",
     },
     "env_obs_in_space": {
         "fn": env_obs_in_space,
         "quick": [
             {"fixed": {"k": 1, "kind": "switched", "nmne": False}, "timeout": 280},
             {"fixed": {"k": 1, "kind": "routed", "nmne": True}, "timeout": 280},
-            {"fixed": {"k": 1, "kind": "routed", "nmne": True, "flatten": True}, "timeout": 280},
+            {"fixed": {"k": 1, "kind": "routed", "nmne": True, "flatten": True}, "timeout": 500},
+            {"fixed": {"k": 1, "kind": "switched", "nmne": False, "variant": "surplus"}, "timeout": 280},
+            {"fixed": {"k": 1, "kind": "switched", "nmne": False, "variant": "padded"}, "timeout": 280},
         ],
-        "thorough": [{"fixed": {"k": 2, "kind": kd, "nmne": nm, "a0": a}, "timeout": 1500} for kd in ("switched", "routed") for nm in (True, False) for a in range(0, 54, 3)],
+        "thorough": [{"fixed": {"k": 2, "kind": kd, "nmne": nm, "a0": a}, "timeout": 1500} for kd in ("switched", "routed") for nm in (True, False) for a in range(0, 54, 3)]
+        + [{"fixed": {"k": 2, "kind": "switched", "nmne": True, "variant": v, "a0": a}, "timeout": 1500} for v in ("surplus", "padded") for a in (24, 39, 41)],
         "cover": ["env_done"],
         "bounds": {"quick": "k=1 step with every action of the map, M in {1,2}; NMNE capture on/off; nested and flattened", "thorough": "k=2, every third action as first action"},
     },
